@@ -59,11 +59,13 @@ fn total(l: &[RE], e: usize) -> usize {
 
 /// drops from the LRU end while the sum exceeds `room`
 fn evict(l: &mut Vec<RE>, room: usize, e: usize) -> Vec<RE> {
-    let mut out = vec![];
-    while total(l, e) > room && !l.is_empty() {
-        out.push(l.remove(0));
+    let mut t = total(l, e);
+    let mut n = 0;
+    while t > room && n < l.len() {
+        t -= l[n].size(e);
+        n += 1;
     }
-    out
+    l.drain(..n).collect()
 }
 
 fn take(l: &mut Vec<RE>, id: u32) -> Option<RE> {
